@@ -1170,7 +1170,7 @@ func main() {
 			matchScenario{name: "2 callers, one cancelled, peer silent on the second arrival, notifications interleaved", calls: 2, waitFor: 1, cancel: 2, silentOn: 2, peerNotes: true},
 		)
 	}
-	deadline := time.Now().Add(time.Duration(run.Pick(120, 2400)) * time.Second)
+	deadline := time.Now().Add(time.Duration(run.Pick(240, 2400)) * time.Second)
 	if rp := replayArg(); rp != "" {
 		var rf struct {
 			Replay struct {
